@@ -49,7 +49,11 @@ func c01PromiseSeq(r *h.Result, rng *h.Rng, n int) error {
 					}
 					continue
 				}
-				res, err := p.Get()
+				res, err, answered := c0102Get(p, c0102Deadline) // Get() after a Done: must return at once
+				if !answered {
+					outs = append(outs, "get-blocked-after-done")
+					continue
+				}
 				e := "0"
 				if err != nil {
 					e = err.Error()
@@ -106,13 +110,21 @@ func c01PromiseConc(r *h.Result, rng *h.Rng, rounds int) {
 					res, err = p.GetCtx(ctx)
 					cancel()
 				} else {
-					res, err = p.Get()
+					var answered bool
+					res, err, answered = c0102Get(p, c0102Deadline)
+					if !answered {
+						err = promise.GetContextTimeout
+					}
 				}
 				gots[g] = got{res, fmt.Sprint(err)}
 			}(g)
 		}
 		close(start)
-		wg.Wait()
+		if !c0102WaitGroup(&wg, 3*c0102Deadline) {
+			r.Violate("C01/promise-call-never-returned", fmt.Sprintf("%d concurrent Done and %d concurrent Get calls on one promise: not all calls returned within %s", nd, ng, 3*c0102Deadline),
+				map[string]any{"stream": "promise-conc", "done_callers": nd, "get_callers": ng})
+			continue
+		}
 		r.Case(fmt.Sprintf("promise-conc:%d:%d:%d", nd, ng, i), true)
 		r.Count(fmt.Sprintf("promise-conc:done-callers=%d", nd))
 		replay := map[string]any{"stream": "promise-conc", "done_callers": nd, "get_callers": ng, "gets": fmt.Sprint(gots)}
